@@ -315,11 +315,111 @@ def guard_locals(body):
     return out
 
 
-def maybe_init(body, tracked):
+def mentions_param(F, tix, depth=0):
+    """does type `tix` mention a type parameter (i.e. may dropping it run user code)?"""
+    if not isinstance(tix, int) or depth > 6:
+        return False
+    t = F.types[tix]
+    k = t["k"]
+    if k == "alias" and t.get("akind") == "Opaque":
+        # an iterator handing out references borrows its elements from elsewhere: dropping it drops no element
+        s = t.get("s", "")
+        for pre in ("impl std::iter::Iterator<Item = ", "impl core::iter::Iterator<Item = ", "impl std::iter::DoubleEndedIterator<Item = "):
+            if s.startswith(pre):
+                item = s[len(pre):]
+                if item.startswith(("&", "std::pin::Pin<&", "core::pin::Pin<&", "(usize, &", "(usize, std::pin::Pin<&")):
+                    return False
+        return True
+    if k in ("param", "alias", "opaque", "dynamic", "dyn", "closure", "coroutine", "other"):
+        return True
+    if k in ("ref", "ptr", "fnptr", "fndef", "prim", "never", "str"):
+        return False
+    for key in ("args", "tys"):
+        for a in t.get(key) or []:
+            if isinstance(a, int) and mentions_param(F, a, depth + 1):
+                return True
+    for key in ("ty", "elem", "inner"):
+        if isinstance(t.get(key), int) and mentions_param(F, t[key], depth + 1):
+            return True
+    return False
+
+
+def user_leaves(F, tix, depth=0):
+    """number of user-typed leaves of a type built from Poll / Option / Result / tuples (None when the type is
+    anything else that mentions a parameter): moving the only leaf out leaves nothing that runs user code"""
+    if not isinstance(tix, int) or depth > 6:
+        return None
+    t = F.types[tix]
+    k = t["k"]
+    if k in ("param", "alias"):
+        return 1 if mentions_param(F, tix) else 0
+    if k == "tuple":
+        n = 0
+        for a in t.get("tys") or []:
+            x = user_leaves(F, a, depth + 1)
+            if x is None:
+                return None
+            n += x
+        return n
+    if k == "adt" and simple_name(t.get("cpath")) in ("Poll", "Option", "Result", "ControlFlow"):
+        n = 0
+        for a in t.get("args") or []:
+            if isinstance(a, int):
+                x = user_leaves(F, a, depth + 1)
+                if x is None:
+                    return None
+                n += x
+        return n
+    if not mentions_param(F, tix):
+        return 0
+    return None
+
+
+def user_drop_points(bi):
+    """(block, description, local or None) of the points of a body where a value of a user-supplied type may be dropped:
+    MIR drop terminators of locals whose type mentions a type parameter, and calls of the explicit drop helpers."""
+    body = bi.body
+    F = body.facts
+    out = []
+    for b in sorted(body.reachable):
+        if body.is_cleanup(b):
+            continue
+        t = body.term(b)
+        if t["k"] == "drop":
+            p = t["place"]
+            l = p["l"]
+            ty = body.locals[l]["ty"]
+            tt = F.types[ty]
+            if tt["k"] == "adt" and simple_name(tt.get("cpath")) in ("MutexGuard", "Context", "Waker"):
+                continue
+            if mentions_param(F, ty):
+                out.append((b, "drop of _%d: %s" % (l, tt.get("s")), l if not p["p"] else None))
+        elif t["k"] == "call":
+            s = bi.by_block.get(b)
+            if s is None or s.callee.indirect:
+                continue
+            c = s.callee
+            if c.key in (("ManuallyDrop", "drop"), ("core::ptr::drop_in_place", "drop_in_place"), ("Slab", "clear"), ("Vec", "clear"), ("Vec", "truncate")) or \
+                    (c.name in ("drop", "drop_in_place") and c.owner in ("FutureArray", "FutureVec", "OutputArray", "OutputVec", "ManuallyDrop", "MaybeUninit")) or \
+                    c.name == "assume_init_drop":
+                out.append((b, "%s::%s" % c.key, None))
+            elif c.key == ("core::mem::drop", "drop") and t["args"]:
+                from .mir import op_place
+                p = op_place(t["args"][0])
+                if p is not None and mentions_param(F, body.locals[p["l"]]["ty"]):
+                    out.append((b, "mem::drop of a user value", None))
+    return out
+
+
+def maybe_init(body, tracked, single_leaf=()):
     """Forward may-analysis: for each block, the set of tracked locals possibly initialised at
-    block entry.  gen: whole assignment / call destination; kill: move out, Drop, StorageDead."""
+    block entry.  gen: whole assignment / call destination; kill: move out, Drop, StorageDead.
+    For locals in `single_leaf` (wrappers around one user value) a move out of a projection kills too."""
     IN = {b: set() for b in range(body.n)}
     OUT = {}
+
+    def moved(p):
+        return p["l"] in tracked and (not p["p"] or p["l"] in single_leaf)
 
     def transfer(b, state):
         st = set(state)
@@ -328,11 +428,11 @@ def maybe_init(body, tracked):
                 rv = s["rv"]
                 if rv["k"] == "use" and "mv" in rv["op"]:
                     p = rv["op"]["mv"]
-                    if not p["p"] and p["l"] in tracked:
+                    if moved(p):
                         st.discard(p["l"])
                 if rv["k"] == "agg":
                     for f in rv["fields"]:
-                        if "mv" in f and not f["mv"]["p"] and f["mv"]["l"] in tracked:
+                        if "mv" in f and moved(f["mv"]):
                             st.discard(f["mv"]["l"])
                 lhs = s["lhs"]
                 if not lhs["p"] and lhs["l"] in tracked:
@@ -354,7 +454,7 @@ def maybe_init(body, tracked):
             out_state = set(st)
             if t["k"] == "call":
                 for a in t["args"]:
-                    if "mv" in a and not a["mv"]["p"] and a["mv"]["l"] in tracked:
+                    if "mv" in a and moved(a["mv"]):
                         out_state.discard(a["mv"]["l"])
                 d = t["dest"]
                 if not d["p"] and d["l"] in tracked:
@@ -369,6 +469,65 @@ def maybe_init(body, tracked):
                     IN[tb] |= out_state
                     changed = True
     return IN, OUT
+
+
+def joint_init_at(body, guards, L, partial_kills, targets):
+    """Path-correlated version of maybe_init for one local L together with the guard locals: the set of
+    (live guards, L initialised) pairs that can hold at the terminator of each block in `targets`.
+    Exact on gen/kill along each path, all switch successors are followed."""
+    tracked = set(guards) | {L}
+
+    def moved(p):
+        return p["l"] in tracked and (not p["p"] or (partial_kills and p["l"] == L))
+
+    def step_stmts(b, st):
+        st = set(st)
+        for s in body.stmts(b):
+            if s["k"] == "assign":
+                rv = s["rv"]
+                if rv["k"] == "use" and "mv" in rv["op"] and moved(rv["op"]["mv"]):
+                    st.discard(rv["op"]["mv"]["l"])
+                if rv["k"] == "agg":
+                    for f in rv["fields"]:
+                        if "mv" in f and moved(f["mv"]):
+                            st.discard(f["mv"]["l"])
+                lhs = s["lhs"]
+                if not lhs["p"] and lhs["l"] in tracked:
+                    st.add(lhs["l"])
+            elif s["k"] == "dead":
+                st.discard(s["l"])
+        return st
+
+    seen = {}
+    out = {b: set() for b in targets}
+    work = [(0, frozenset())]
+    while work:
+        b, st0 = work.pop()
+        if st0 in seen.setdefault(b, set()):
+            continue
+        seen[b].add(st0)
+        if len(seen[b]) > 64:
+            continue
+        st = step_stmts(b, st0)
+        t = body.term(b)
+        if b in out:
+            out[b].add(frozenset(st))
+        nxt = set(st)
+        if t["k"] == "call":
+            for a in t["args"]:
+                if "mv" in a and moved(a["mv"]):
+                    nxt.discard(a["mv"]["l"])
+            d = t["dest"]
+            if not d["p"] and d["l"] in tracked:
+                nxt.add(d["l"])
+        elif t["k"] == "drop":
+            p = t["place"]
+            if not p["p"] and p["l"] in tracked:
+                nxt.discard(p["l"])
+        for tb in body.succs(b):
+            if not body.is_cleanup(tb):
+                work.append((tb, frozenset(nxt)))
+    return out
 
 
 # ---------------------------------------------------------------------------------------------
